@@ -39,7 +39,7 @@ impl AuthData {
         let cmd = self
             .cmd
             .iter()
-            .map(|s| s.replace("#USER#", &user.0).replace("#PASS#", &user.1))
+            .map(|s| substitute(s, &user.0, &user.1))
             .collect::<Vec<_>>();
         trace!("auth_cmd: {:?}", cmd);
         let mut child = Command::new(&cmd[0]);
@@ -65,6 +65,33 @@ impl AuthData {
                 || self.auth_cmd(user).await
         } else {
             false
+        }
+    }
+}
+
+// Replaces #USER# and #PASS# in one pass over the template: what is inserted is never scanned again, so a
+// user name that contains "#PASS#" stays what the peer sent.
+fn substitute(template: &str, user: &str, pass: &str) -> String {
+    let mut out = String::with_capacity(template.len() + user.len() + pass.len());
+    let mut rest = template;
+    loop {
+        let next = match (rest.find("#USER#"), rest.find("#PASS#")) {
+            (Some(u), Some(p)) if u < p => Some((u, user)),
+            (Some(_), Some(p)) => Some((p, pass)),
+            (Some(u), None) => Some((u, user)),
+            (None, Some(p)) => Some((p, pass)),
+            (None, None) => None,
+        };
+        match next {
+            Some((at, value)) => {
+                out.push_str(&rest[..at]);
+                out.push_str(value);
+                rest = &rest[at + 6..];
+            }
+            None => {
+                out.push_str(rest);
+                return out;
+            }
         }
     }
 }
